@@ -481,6 +481,11 @@ func (s *ReverseInnerSearcher) IsMatch(haystack []byte) bool {
 				return matched
 			}
 			prefixMatches = revResult >= 0
+		} else {
+			// pos == 0 with a prefix that is neither .* nor anchors only: whether
+			// it can match the empty string is not known here - let PikeVM decide
+			_, _, matched := s.pikevm.Search(haystack)
+			return matched
 		}
 
 		if prefixMatches {
